@@ -185,16 +185,41 @@ func genOCRAArgs(rng *gen.RNG, nstr int) c10Args {
 		a.S = append(a.S, hs(hostileString(rng)))
 	}
 	s := hostileSuite(rng)
-	if rng.Intn(3) == 0 {
+	switch rng.Intn(3) {
+	case 0:
 		// a usable configuration with hostile inputs reaches the message builder
 		hb := handBuiltSuites(rng, []string{"r"})
 		s = hb[rng.Intn(len(hb))]
+	case 1:
+		// a usable configuration with one or two fields pushed outside their declared enum ranges in a way the
+		// suite validator does not reject (it only requires "not none"): reaches the code behind the validators
+		hb := handBuiltSuites(rng, []string{"r", ""})
+		s = hb[rng.Intn(len(hb))]
+		for n := 1 + rng.Intn(2); n > 0; n-- {
+			switch rng.Intn(4) {
+			case 0:
+				s.Q, s.Challenge = true, gen.Pick(rng, []int{7, 8, 100, -1, -7, 1 << 31, -1 << 63, 1<<63 - 1})
+			case 1:
+				s.P, s.PasswordHash = true, gen.Pick(rng, []int{4, 5, 7, 100, -1, -3, 1 << 31, -1 << 63, 1<<63 - 1})
+			case 2:
+				s.T, s.TimeStep = true, gen.Pick(rng, []int{1<<63 - 1, 1 << 31, 86400 * 365})
+			default:
+				s.Raw = hostileString(rng)
+			}
+		}
 	}
 	a.Suite = &s
 	a.Via = gen.Pick(rng, []string{viaBare, viaRawValue, viaRaw})
 	in := inputToJ(ref.Input{Counter: hostileBytes(rng), Challenge: hostileBytes(rng), Password: hostileBytes(rng), Session: hostileBytes(rng), Timestamp: hostileBytes(rng)})
 	if rng.Intn(3) == 0 && ref.SuiteUsable(s) {
 		in = inputToJ(admissibleInput(rng, s, rng.Intn(100)))
+	} else if rng.Intn(2) == 0 && ref.SuiteUsable(s) {
+		// admissible in every field the validators constrain, hostile (any size) where they do not
+		ai := admissibleInput(rng, s, rng.Intn(100))
+		if s.P && (s.PasswordHash < 1 || s.PasswordHash > 3) {
+			ai.Password = rng.Bytes(gen.Pick(rng, []int{1, 19, 20, 64, 65, 127, 128, 129, 200, 255, 256, 257, 1000, 1024, 4096, 65536}))
+		}
+		in = inputToJ(ai)
 	}
 	a.Input = &in
 	return a
